@@ -781,7 +781,7 @@ TEXTS = {
     "bool": ["True", "False", "true", "false", "1", "0"],
     "str": ["x", "abc", "a_b", "1", "10", "True", "X9", "_u", "x1", "x10"],
 }
-SCHEMA_KEYS = ["a", "ab", "a_b", "b", "n.x", "n.y", "c.d.e"]
+SCHEMA_KEYS = ["a", "ab", "a_b", "b", "n.x", "n.y", "c.d.e", "c.d.f", "c.d.g.h"]  # incl. siblings three / four levels deep
 
 
 def own_parse(typ, text):
@@ -1040,13 +1040,18 @@ def roundtrip_cases(draw):
     if friendly:
         n, hetero = draw(st.integers(2, 6)), False
     jobs = []
+    deep_n = draw(st.integers(0, 2)) == 0
     for _ in range(n):
         sp = {}
         for k in keys:
             if hetero and not draw(st.booleans()):
                 continue
             v = draw(st.sampled_from(pools[k]))
-            sp[k] = {"x": v} if k == "n" else v
+            if k == "n" and deep_n:
+                # several leaves three levels deep below one second-level key (automatic layout n.c.p/<v>/n.c.q/<w>)
+                sp[k] = {"c": {"p": v, "q": draw(st.sampled_from(pools[k]))}}
+            else:
+                sp[k] = {"x": v} if k == "n" else v
         jobs.append({"sp": sp, "doc": draw(_docs), "files": draw(_files)})
     jobs = _dedupe_jobs(jobs)
     pk = draw(st.sampled_from(["none", "none", "none", "false", "format", "format", "format", "callable", "callable"]))
